@@ -61,13 +61,23 @@ def rulesOfTm (doc : Doc) (tm : TriplesMap) : List Rule :=
   -- a triples map without predicate-object maps stays in the table as a non-asserted rule (it can be a join parent)
   if rs = [] then [{ b with asserted := false }] else rs
 
-/-- `_remove_self_joins_no_condition` -/
+/-- the test added to `_remove_self_joins_no_condition` by fix commit "only replace a self-join by the row itself when the parent
+    subject map uses exactly the join references": no conditions at all, or a plain parent subject map whose references are, as a
+    set, the parent side of the join conditions -/
+def subjRefsAreJoinCols (r parent : Rule) : Bool :=
+  r.objectJoin.isEmpty ||
+    ((parent.subjectMapType = .template || parent.subjectMapType = .reference || parent.subjectMapType = .constant)
+     && ((refsOfRule parent true).all ((r.objectJoin.map (·.2)).contains ·)
+         && (r.objectJoin.map (·.2)).all ((refsOfRule parent true).contains ·)))
+
+/-- `_remove_self_joins_no_condition` (as repaired: see `subjRefsAreJoinCols`; the code as found before the repair is
+    `Model.eliminateSelfJoinG ElimShape.found`, Model/Join.lean) -/
 def eliminateSelfJoin (rules : List Rule) (r : Rule) : Rule :=
   if r.objectMapType = .parentTM then
     match rules.find? (fun p => p.tmId = r.objectMapValue) with
     | some parent =>
       if r.logicalSourceValue = parent.logicalSourceValue && r.iterator = parent.iterator
-          && r.objectJoin.all (fun cp => cp.1 = cp.2) then
+          && r.objectJoin.all (fun cp => cp.1 = cp.2) && subjRefsAreJoinCols r parent then
         { r with objectMapType := parent.subjectMapType, objectMapValue := parent.subjectMapValue,
                  objectTermtype := parent.subjectTermtype, objectJoin := [] }
       else r
